@@ -6,12 +6,14 @@ import RotoV.Lemmas.Lifetime
 
 namespace RotoV.Lifetime
 
-theorem compile_inv {s : St} (hI : Inv s) (r k n : Nat) (uc uf : Bool) (v : Nat) (kc kf : Bool)
+theorem compile_inv {s : St} (hI : Inv s) (r k n : Nat) (uc uf ud : Bool) (dh : List Holder) (v : Nat) (kc kf : Bool)
     (hk : k ∉ s.compiled) (hkc : kc = true → r ∈ s.rtConst) (hkf : kf = true → r ∈ s.rtClos)
-    (huc : uc = true → kc = true) (huf : uf = true → kf = true) :
+    (huc : uc = true → kc = true) (huf : uf = true → kf = true)
+    (hdh : dh.all Holder.heldByHandles = true) :
     Inv { s with
       compiled := k :: s.compiled
-      info := upd s.info k { rt := r, nconst := n, keepConst := kc, keepClos := kf, useConst := uc, useClos := uf, value := v }
+      info := upd s.info k { rt := r, nconst := n, keepConst := kc, keepClos := kf, useConst := uc, useClos := uf,
+                             useData := ud, dataHolders := dh, value := v }
       strong := upd s.strong k 1
       alive := k :: s.alive
       mapped := upd s.mapped k true
@@ -32,13 +34,15 @@ theorem compile_inv {s : St} (hI : Inv s) (r k n : Nat) (uc uf : Bool) (v : Nat)
     intro h hh e
     have := (List.countP_eq_zero.1 hh0) h hh
     simp [e] at this
-  generalize hm : ({ rt := r, nconst := n, keepConst := kc, keepClos := kf, useConst := uc, useClos := uf, value := v } : ModInfo) = m
+  generalize hm : ({ rt := r, nconst := n, keepConst := kc, keepClos := kf, useConst := uc, useClos := uf,
+                     useData := ud, dataHolders := dh, value := v } : ModInfo) = m
   have m_rt : m.rt = r := by subst hm; rfl
   have m_kc : m.keepConst = kc := by subst hm; rfl
   have m_kf : m.keepClos = kf := by subst hm; rfl
   have m_uc : m.useConst = uc := by subst hm; rfl
   have m_uf : m.useClos = uf := by subst hm; rfl
   have m_n : m.nconst = n := by subst hm; rfl
+  have m_dh : m.dataHolders = dh := by subst hm; rfl
   have cpc : ∀ r', s.alive.countP (constPred (upd s.info k m) r') = s.alive.countP (constPred s.info r') := by
     intro r'; apply List.countP_congr; intro x hx
     have : x ≠ k := fun e => hna (e ▸ hx)
@@ -169,8 +173,9 @@ theorem compile_inv {s : St} (hI : Inv s) (r k n : Nat) (uc uf : Bool) (v : Nat)
     · intro j
       show ((upd s.info k m j).useConst = true → (upd s.info k m j).keepConst = true)
         ∧ ((upd s.info k m j).useClos = true → (upd s.info k m j).keepClos = true)
+        ∧ (upd s.info k m j).dataHolders.all Holder.heldByHandles = true
       by_cases hj : j = k
-      · subst hj; rw [upd_same, m_uc, m_uf, m_kc, m_kf]; exact ⟨huc, huf⟩
+      · subst hj; rw [upd_same, m_uc, m_uf, m_kc, m_kf, m_dh]; exact ⟨huc, huf, hdh⟩
       · rw [upd_other _ _ _ _ hj]; exact hc.uses j
   · intro j
     show upd s.strong k 1 j = (k :: s.pkgs).count j + s.hs.countP (fun h => h.k == j)
@@ -274,22 +279,28 @@ theorem step_inv {F : Facts} (hG : Good F) {s : St} (hI : Inv s) (op : Op) (hv :
     simp only [valid, Bool.and_eq_true, Bool.not_eq_true', List.contains_eq_mem, decide_eq_true_eq,
       decide_eq_false_iff_not] at hv
     exact registerClos_inv hI hv.2
-  | compile r k n uc uf v =>
+  | compile r k n uc uf ud v =>
     simp only [valid, Bool.and_eq_true, Bool.not_eq_true', List.contains_eq_mem, decide_eq_true_eq,
       decide_eq_false_iff_not, Bool.or_eq_true] at hv
     obtain ⟨⟨⟨_, hk⟩, huc⟩, huf⟩ := hv
     simp only [step, hG.consts, hG.fns, Bool.true_and]
-    apply compile_inv hI r k n uc uf v
+    apply compile_inv hI r k n uc uf ud F.dataHolders v
     · exact hk
     · intro h; simpa using h
     · intro h; subst h; simpa using huf
     · intro h; subst h; simpa using huc
     · exact id
+    · exact hG.data
   | getHandle k =>
     simp only [valid, List.contains_eq_mem, decide_eq_true_eq] at hv
     have hpos := hI.strong_pos_of_pkg hv
     simp only [step, hG.holds, if_true]
     exact addHandle_inv hI { k := k, holds := true, expect := callRes s k } hpos rfl (callRes_ok hc hpos)
+  | getTest k =>
+    simp only [valid, List.contains_eq_mem, decide_eq_true_eq] at hv
+    have hpos := hI.strong_pos_of_pkg hv
+    simp only [step, hG.holds, hG.test, Bool.and_self, if_true]
+    exact addHandle_inv hI { k := k, holds := true, expect := callRes s k, isFn := true } hpos rfl (callRes_ok hc hpos)
   | cloneHandle i =>
     simp only [step]
     cases hi : s.hs[i]? with
@@ -299,6 +310,13 @@ theorem step_inv {F : Facts} (hG : Good F) {s : St} (hI : Inv s) (op : Op) (hv :
       have hh := hc.holds h hmem
       simp only [hh, if_true]
       exact addHandle_inv hI h (hI.strong_pos_of_handle hmem) hh (hc.expect_ok h hmem)
+  | intoFunc i =>
+    simp only [step]
+    cases hi : s.hs[i]? with
+    | none => exact hI
+    | some h =>
+      simp only [hG.closure, if_true]
+      exact intoFunc_inv hI i h hi
   | call i =>
     simp only [step]
     cases hi : s.hs[i]? with
@@ -360,10 +378,12 @@ def obs (s : St) (j : Nat) : Obs :=
 
 /-- the package an operation works on -/
 def target (s : St) : Op → Option Nat
-  | .compile _ k _ _ _ _ => some k
+  | .compile _ k _ _ _ _ _ => some k
   | .getHandle k => some k
+  | .getTest k => some k
   | .dropPackage k => some k
   | .cloneHandle i => (s.hs[i]?).map (·.k)
+  | .intoFunc i => (s.hs[i]?).map (·.k)
   | .call i => (s.hs[i]?).map (·.k)
   | .dropHandle i => (s.hs[i]?).map (·.k)
   | _ => none
@@ -395,7 +415,7 @@ theorem frame {F : Facts} (hG : Good F) {s : St} (hI : Inv s) (op : Op) (hv : va
   | registerConst r => simp [target] at ht
   | registerClosure r => simp [target] at ht
   | dropRuntime r => simp [target] at ht
-  | compile r k' n uc uf v =>
+  | compile r k' n uc uf ud v =>
     simp only [target, Option.some.injEq] at ht; subst ht
     simp only [step]
     refine ⟨?_, (by triv), ?_, ?_⟩
@@ -405,6 +425,12 @@ theorem frame {F : Facts} (hG : Good F) {s : St} (hI : Inv s) (op : Op) (hv : va
     · show j ∈ k' :: s.compiled ↔ _
       simp [hjk]
   | getHandle k' =>
+    simp only [target, Option.some.injEq] at ht; subst ht
+    simp only [step]
+    refine ⟨(by triv), ?_, (by triv), (by triv)⟩
+    show (s.hs ++ [_]).filter _ = _
+    simp [List.filter_append, hkj]
+  | getTest k' =>
     simp only [target, Option.some.injEq] at ht; subst ht
     simp only [step]
     refine ⟨(by triv), ?_, (by triv), (by triv)⟩
@@ -420,6 +446,20 @@ theorem frame {F : Facts} (hG : Good F) {s : St} (hI : Inv s) (op : Op) (hv : va
       refine ⟨(by triv), ?_, (by triv), (by triv)⟩
       show (s.hs ++ [h]).filter _ = _
       simp [List.filter_append, ht, hkj]
+  | intoFunc i =>
+    simp only [target] at ht
+    cases hi : s.hs[i]? with
+    | none => simp [hi] at ht
+    | some h =>
+      simp only [hi, Option.map_some, Option.some.injEq] at ht
+      simp only [step, hi, hG.closure, if_true]
+      refine ⟨(by triv), ?_, (by triv), (by triv)⟩
+      obtain ⟨hlt, hget⟩ := List.getElem?_eq_some_iff.1 hi
+      show (s.hs.set i { h with isFn := true }).filter _ = _
+      apply filter_set_of_not _ _ _ _ hlt
+      · show (h.k == j) = false
+        rw [ht]; exact hkj
+      · rw [hget, ht]; exact hkj
   | call i =>
     simp only [step]
     cases hi : s.hs[i]? with
